@@ -3,17 +3,27 @@
 Every path of 1..6 edges through the complete directed graph on
 {f, l, n} (frequency [Hz], wavelength [m], wavenumber [1/m]) is executed with
 the real converters; the reference walks the same path in exact rationals
-(the speed of light is an integer number of m/s).
+(the speed of light is an integer number of m/s). The start values are the
+float lattice and, in every other representation of c08_reps that holds them
+exactly, the whole numbers of WHOLE.
 """
 import itertools
 from fractions import Fraction
 
 import numpy as np
 
-ULP = Fraction(1, 2 ** 52)
+from checks import c08_reps as reps
+
 ULPS_PER_EDGE = 4          # DESIGN C08; every edge is one correctly rounded
-                           # operation of condition number 1
+                           # operation of condition number 1 (ulp of the
+                           # precision reps.eps grants the representation)
 MAX_PATH = 6
+REP_PATH = {"quick": 2, "thorough": MAX_PATH}
+# whole numbers inside the stated range 1e8..1e15 Hz = 3e-7..3 m = 0.33..3.3e6 /m
+WHOLE = {"f": (10 ** 8, 3 * 10 ** 8, 2 ** 30, 15 * 10 ** 8, 10 ** 10,
+               10 ** 12, 2 ** 40, 10 ** 15),
+         "l": (1, 2),
+         "n": (1, 100, 500, 1000, 1500, 10 ** 6, 3 * 10 ** 6)}
 NODES = ("f", "l", "n")
 
 CONVERTER = {
@@ -74,37 +84,54 @@ def cases(shard):
     _, tier, start, first = shard
     values = start_values(start, tier)
     for path in paths(start, first):
-        for mode in ("float", "float64"):
+        for rep in ("float", "float64"):
             for v in values:
                 yield dict(part="units", start=start, path=list(path),
-                           mode=mode, values=[v])
+                           mode="scalar", rep=rep, values=[v])
         for mode in ("array1", "array2"):
             yield dict(part="units", start=start, path=list(path), mode=mode,
-                       values=values)
+                       rep="float64", values=values)
+        if len(path) > REP_PATH[tier]:
+            continue
+        for rep in reps.REPS:
+            whole = [v for v in WHOLE[start] if reps.representable(v, rep)]
+            for mode in ("scalar",) if rep == "int" else ("scalar", "0d"):
+                for v in whole:
+                    yield dict(part="units", start=start, path=list(path),
+                               mode=mode, rep=rep, values=[v])
+            if rep in reps.ARRAY_REPS:
+                yield dict(part="units", start=start, path=list(path),
+                           mode="array1", rep=rep, values=whole)
+                yield dict(part="units", start=start, path=list(path),
+                           mode="array2", rep=rep, values=whole + whole[::-1])
 
 
 def nontrivial(case):
     return len(case["path"]) >= 2
 
 
-def container(values, mode):
-    if mode == "float":
-        return float(values[0])
-    if mode == "float64":
-        return np.float64(values[0])
-    if mode == "array1":
-        return np.array(values, dtype=float)
-    if mode == "array2":
-        return np.array(values, dtype=float).reshape(2, -1)
-    raise ValueError(mode)
+def container(values, mode, rep):
+    if mode == "scalar":
+        return float(values[0]) if rep == "float" else \
+            reps.scalar(values[0], rep)
+    arr = reps.array(values, rep)
+    if mode == "0d":
+        return arr[0].reshape(())
+    return arr if mode == "array1" else arr.reshape(2, -1)
 
 
 def check(case):
     """-> (list of (key, expected, observed, msg), number of judged values)"""
+    bad, judged = walk(case)
+    rep = None if case["rep"] == "float" else case["rep"]
+    return reps.tagged(bad, rep), judged
+
+
+def walk(case):
     from typhon.physics import em
     c = speed_of_light()
     values, path = case["values"], case["path"]
-    x = container(values, case["mode"])
+    x = container(values, case["mode"], case["rep"])
     shape = np.shape(x)
     src = case["start"]
     for dst in path:
@@ -119,7 +146,7 @@ def check(case):
     if np.shape(x) != shape:
         return [("units/shape", list(shape), list(np.shape(x)), name)], 0
     got = np.asarray(x, dtype=float).ravel()
-    tol = ULPS_PER_EDGE * len(path) * ULP
+    tol = ULPS_PER_EDGE * len(path) * Fraction(reps.eps(case["rep"]))
     for v, g in zip(values, got):
         exp = Fraction(v)
         src = case["start"]
@@ -131,6 +158,7 @@ def check(case):
             key = "units/round-trip-not-identity" if closed else \
                 "units/%s-from-%s" % (path[-1], case["start"])
             return [(key, float(exp), float(g),
-                     "start %r %s -> %s" % (v, case["start"],
-                                            "->".join(path)))], len(values)
+                     "start %r (%s %s) %s -> %s" % (
+                         v, case["rep"], case["mode"], case["start"],
+                         "->".join(path)))], len(values)
     return [], len(values)
